@@ -740,11 +740,15 @@ def compare(ctx, fam, rec, ans, fam_sig):
                      "%s invoked a callback %d times on one node of %s (%d distinct nodes, %d invocations)" % (
                          rec["op"], rec["maxcount"], fam.name, rec["nodes"], rec["ncalls"]), replay)
         bad = True
-    if rec.get("fvo_calls", 0) > 2 * rec["nodes"] + 50:
+    if rec.get("fvo_calls", 0) > 8 * rec["nodes"] + 100:
         ctx.report_s(dict(sig, oracle="nested-oracle-calls"),
                      "%s on %s (%d distinct nodes): the free-variables oracle ran %d callbacks inside it" % (
                          rec["op"], fam.name, rec["nodes"], rec["fvo_calls"]), replay)
         bad = True
+    if rec.get("text_len") is not None:
+        r_ = rec["text_len"] / float(rec["nodes"] + rec["edges"] + 1)
+        if fam.name != "diamond/str_inline":
+            ctx.extra["max_dag_print_chars_per_item"] = max(ctx.extra.get("max_dag_print_chars_per_item", 0), round(r_, 1))
     if rec.get("text_len") is not None and rec["text_len"] > TEXT_PER_ITEM * (rec["nodes"] + rec["edges"]) + 2000:
         ctx.report_s(dict(sig, oracle="output-size"),
                      "DAG print of %s: %d characters for %d nodes and %d edges" % (
@@ -914,7 +918,7 @@ def check_parse(ctx, env, fam, fam_sig, timings):
     if total > 2 * (len(sub) + sum(indeg.values())) + 8:
         ctx.report_s(dict(sig, oracle="iterations"), "parser: %d create_node calls for %d nodes" % (total, len(sub)), replay)
         ok = False
-    inner_wrong = [n for n in sub if n.args() and not n.is_constant() and cnt[n] != 1]
+    inner_wrong = [] if not ok else [n for n in sub if n.args() and not n.is_constant() and cnt[n] != 1]
     if g is not fam.phi and structural_key(g) != structural_key(fam.phi):
         ctx.report_k("re-parsed DAG print of %s is a different formula" % fam.name, replay)
         ok = False
@@ -930,7 +934,8 @@ def check_big_substitution(ctx, env, fam, fam_sig, timings):
     from pysmt.formula import FormulaManager
     m = env.formula_manager
     t = fam.term
-    if t is fam.leaf or env.stc.get_type(t) != env.stc.get_type(fam.rep) or not fam.rep.is_symbol():
+    if t is fam.leaf or env.stc.get_type(t) != env.stc.get_type(fam.rep) or not fam.rep.is_symbol() \
+            or fam.params.get("shape") == "quant":      # every quantifier level validates the map again
         return
     calls = [0]
     orig = FormulaManager.__contains__
